@@ -15,105 +15,128 @@ Ltac unf := unfold rfv_scalar_1, rfv_scalar_2, rfv_scalar_3, vfr_scalar_1, vfr_s
 Lemma PI_neq0' : PI <> 0. Proof. apply PI_neq0. Qed.
 Lemma PI_pos : 0 < PI. Proof. apply PI_RGT_0. Qed.
 
+(* The generated right-hand sides are only used up to equality in the field R: every step below first
+   brings the generated sub-expression into a normal form of OUR choice with `field` (so `2 * PI * r`,
+   `r * (2 * PI)`, `4 * PI / 3 * r ^ 3`, `r ^ 3 * (4 * PI / 3)` ... are all accepted) and only then applies
+   the lemma about sqrt / pow_nn.  No step matches on the shape of a product or quotient. *)
+Ltac fld := field; repeat split; first [apply PI_neq0' | lra].
+Ltac eqf := first [reflexivity | fld | f_equal; first [reflexivity | fld]].
+
+(* replace the argument of the sqrt in the goal by [t] *)
+Ltac sqrt_arg t :=
+  match goal with |- context [sqrt ?e] =>
+    first [constr_eq e t | replace e with t by fld] end.
+(* replace base and exponent of the pow_nn in the goal by [t] and [1 / 3] *)
+Ltac pow_nn_arg t :=
+  match goal with |- context [pow_nn ?e ?y] =>
+    first [constr_eq y (1 / 3) | replace y with (1 / 3) by fld];
+    first [constr_eq e t | replace e with t by fld] end.
+
+(* s = sqrt e  and  s * s = e : continue with a goal that is polynomial in s *)
+Ltac name_sqrt s Hs tac :=
+  match goal with |- context [sqrt ?e] =>
+    let He := fresh "He" in
+    assert (He : 0 <= e) by tac;
+    pose proof (sqrt_sqrt e He) as Hs; set (s := sqrt e) in * end.
+
 (* ---- all variants of each conversion are the same real function ---- *)
 Lemma variants_rfv v :
   (rfv_compiled_1 v = rfv_scalar_1 v /\ rfv_nd_1 v = rfv_scalar_1 v) /\
   (rfv_compiled_2 v = rfv_scalar_2 v /\ rfv_nd_2 v = rfv_scalar_2 v) /\
   (rfv_compiled_3 v = rfv_scalar_3 v /\ rfv_nd_3 v = rfv_scalar_3 v).
-Proof.
-  pose proof PI_neq0' as HP. unf.
-  repeat split; try reflexivity; try (f_equal; field; exact HP).
-Qed.
+Proof. unf. repeat split; eqf. Qed.
 
 Lemma variants_vfr r :
   (vfr_compiled_1 r = vfr_scalar_1 r /\ vfr_nd_1 r = vfr_scalar_1 r) /\
   (vfr_compiled_2 r = vfr_scalar_2 r /\ vfr_nd_2 r = vfr_scalar_2 r) /\
   (vfr_compiled_3 r = vfr_scalar_3 r /\ vfr_nd_3 r = vfr_scalar_3 r).
-Proof. unf. repeat split; try reflexivity; field. Qed.
+Proof. unf. repeat split; eqf. Qed.
 
 Lemma variants_sfr r :
   sfr_compiled_1 r = sfr_scalar_1 r /\ sfr_compiled_2 r = sfr_scalar_2 r /\
   sfr_compiled_3 r = sfr_scalar_3 r.
-Proof. unf. repeat split; try reflexivity; field. Qed.
+Proof. unf. repeat split; eqf. Qed.
 
 (* ---- radius -> volume -> radius ---- *)
 Lemma rv_inv_1 r : rfv_scalar_1 (vfr_scalar_1 r) = r.
-Proof. unf. field. Qed.
+Proof. unf. fld. Qed.
 
 Lemma rv_inv_2 r : 0 <= r -> rfv_scalar_2 (vfr_scalar_2 r) = r.
 Proof.
-  intros Hr. unf. replace (PI * r ^ 2 / PI) with (r * r) by (field; apply PI_neq0').
-  apply sqrt_square; exact Hr.
+  intros Hr. unf. sqrt_arg (r * r). rewrite (sqrt_square r Hr). eqf.
 Qed.
 
 Lemma rv_inv_3 r : 0 <= r -> rfv_scalar_3 (vfr_scalar_3 r) = r.
 Proof.
-  intros Hr. unf.
-  match goal with |- pow_nn ?x _ = _ => replace x with (r ^ 3) by (field; apply PI_neq0') end.
-  apply pow_nn_cube_third; exact Hr.
+  intros Hr. unf. pow_nn_arg (r ^ 3). rewrite (pow_nn_cube_third r Hr). eqf.
 Qed.
 
 (* ---- volume -> radius -> volume ---- *)
 Lemma vr_inv_1 v : vfr_scalar_1 (rfv_scalar_1 v) = v.
-Proof. unf. field. Qed.
+Proof. unf. fld. Qed.
 
 Lemma vr_inv_2 v : 0 <= v -> vfr_scalar_2 (rfv_scalar_2 v) = v.
 Proof.
-  intros Hv. unf. pose proof PI_pos as HP.
-  replace (sqrt (v / PI) ^ 2) with (sqrt (v / PI) * sqrt (v / PI)) by ring.
-  rewrite sqrt_sqrt; [field; lra|].
-  apply Rmult_le_pos; [exact Hv|left; apply Rinv_0_lt_compat; exact HP].
+  intros Hv. unf. pose proof PI_pos as HP. sqrt_arg (v * / PI).
+  name_sqrt s Hs ltac:(apply Rmult_le_pos; [exact Hv|left; apply Rinv_0_lt_compat; exact HP]).
+  transitivity (PI * (s * s)); [fld|rewrite Hs; fld].
 Qed.
 
 Lemma vr_inv_3 v : 0 <= v -> vfr_scalar_3 (rfv_scalar_3 v) = v.
 Proof.
-  intros Hv. unf. pose proof PI_pos as HP.
-  rewrite cube_pow_nn_third; [field; lra|].
-  apply Rmult_le_pos; [lra|left; apply Rinv_0_lt_compat; lra].
+  intros Hv. unf. pose proof PI_pos as HP. pow_nn_arg (v * (3 / (4 * PI))).
+  assert (He : 0 <= v * (3 / (4 * PI)))
+    by (apply Rmult_le_pos; [exact Hv|left; apply Rdiv_lt_0_compat; lra]).
+  pose proof (cube_pow_nn_third _ He) as Hs. set (s := pow_nn _ _) in *.
+  transitivity (4 * PI / 3 * s ^ 3); [fld|rewrite Hs; fld].
 Qed.
 
 (* ---- surface ---- *)
 Lemma rs_inv_2 r : rfs_scalar_2 (sfr_scalar_2 r) = r.
-Proof. unf. field. apply PI_neq0'. Qed.
+Proof. unf. fld. Qed.
 
 Lemma rs_inv_3 r : 0 <= r -> rfs_scalar_3 (sfr_scalar_3 r) = r.
 Proof.
-  intros Hr. unf. replace (4 * PI * r ^ 2 / (4 * PI)) with (r * r) by (field; apply PI_neq0').
-  apply sqrt_square; exact Hr.
+  intros Hr. unf. sqrt_arg (r * r). rewrite (sqrt_square r Hr). eqf.
 Qed.
 
 Lemma sr_inv_2 s : sfr_scalar_2 (rfs_scalar_2 s) = s.
-Proof. unf. field. apply PI_neq0'. Qed.
+Proof. unf. fld. Qed.
 
 Lemma sr_inv_3 s : 0 <= s -> sfr_scalar_3 (rfs_scalar_3 s) = s.
 Proof.
-  intros Hs. unf. pose proof PI_pos as HP.
-  replace (sqrt (s / (4 * PI)) ^ 2) with (sqrt (s / (4 * PI)) * sqrt (s / (4 * PI))) by ring.
-  rewrite sqrt_sqrt; [field; lra|].
-  apply Rmult_le_pos; [exact Hs|left; apply Rinv_0_lt_compat; lra].
+  intros Hs. unf. pose proof PI_pos as HP. sqrt_arg (s * / (4 * PI)).
+  name_sqrt q Hq ltac:(apply Rmult_le_pos; [exact Hs|left; apply Rinv_0_lt_compat; lra]).
+  transitivity (4 * PI * (q * q)); [fld|rewrite Hq; fld].
 Qed.
 
 (* ---- surface area is the derivative of the volume ---- *)
+Ltac dside := first [exact I | repeat split; first [exact I | apply PI_neq0' | lra]].
+
 Lemma surf_dvol_1 r : is_derive vfr_scalar_1 r (sfr_scalar_1 r).
-Proof. unfold vfr_scalar_1, sfr_scalar_1. auto_derive; [exact I|ring]. Qed.
+Proof. unfold vfr_scalar_1, sfr_scalar_1. auto_derive; [dside|fld]. Qed.
 
 Lemma surf_dvol_2 r : is_derive vfr_scalar_2 r (sfr_scalar_2 r).
-Proof. unfold vfr_scalar_2, sfr_scalar_2. auto_derive; [exact I|ring]. Qed.
+Proof. unfold vfr_scalar_2, sfr_scalar_2. auto_derive; [dside|fld]. Qed.
 
 Lemma surf_dvol_3 r : is_derive vfr_scalar_3 r (sfr_scalar_3 r).
-Proof. unfold vfr_scalar_3, sfr_scalar_3. auto_derive; [exact I|field]. Qed.
+Proof. unfold vfr_scalar_3, sfr_scalar_3. auto_derive; [dside|fld]. Qed.
 
 (* ---- monotonicity (used by C01/C10: larger volume <-> larger radius) ---- *)
 Lemma vfr_2_mono r1 r2 : 0 <= r1 -> r1 <= r2 -> vfr_scalar_2 r1 <= vfr_scalar_2 r2.
 Proof.
-  intros H1 H2. unf. pose proof PI_pos. apply Rmult_le_compat_l; [lra|].
-  apply pow_incr; lra.
+  intros H1 H2. unf. pose proof PI_pos as HP.
+  assert (Hp : r1 ^ 2 <= r2 ^ 2) by (apply pow_incr; lra).
+  assert (Hd : 0 <= PI * (r2 ^ 2 - r1 ^ 2)) by (apply Rmult_le_pos; lra).
+  match goal with |- ?a <= ?b => replace b with (a + PI * (r2 ^ 2 - r1 ^ 2)) by fld end. lra.
 Qed.
 
 Lemma vfr_3_mono r1 r2 : 0 <= r1 -> r1 <= r2 -> vfr_scalar_3 r1 <= vfr_scalar_3 r2.
 Proof.
-  intros H1 H2. unf. pose proof PI_pos. apply Rmult_le_compat_l; [lra|].
-  apply pow_incr; lra.
+  intros H1 H2. unf. pose proof PI_pos as HP.
+  assert (Hp : r1 ^ 3 <= r2 ^ 3) by (apply pow_incr; lra).
+  assert (Hd : 0 <= 4 * PI / 3 * (r2 ^ 3 - r1 ^ 3)) by (apply Rmult_le_pos; lra).
+  match goal with |- ?a <= ?b => replace b with (a + 4 * PI / 3 * (r2 ^ 3 - r1 ^ 3)) by fld end. lra.
 Qed.
 
 (* ---- spherical index arithmetic (Z) ---- *)
@@ -126,7 +149,10 @@ Qed.
 
 Lemma index_lm_k l m : 0 <= l -> - l <= m <= l -> index_lm (index_k l m) = (l, m).
 Proof.
-  intros Hl Hm. unfold index_lm, index_k. rewrite (sqrt_between l m Hl Hm). f_equal. ring.
+  intros Hl Hm. unfold index_lm, index_k. cbv zeta.
+  match goal with |- context [Z.sqrt ?e] =>
+    first [constr_eq e (l * (l + 1) + m) | replace e with (l * (l + 1) + m) by ring] end.
+  rewrite (sqrt_between l m Hl Hm). f_equal; ring.
 Qed.
 
 Lemma index_k_lm k : 0 <= k ->
@@ -169,7 +195,7 @@ Lemma droplet_volume_set_get v : 0 <= v ->
   drop_volume_3 (drop_set_volume_3 v) = v.
 Proof.
   intros Hv. unfold drop_volume_1, drop_volume_2, drop_volume_3,
-    drop_set_volume_1, drop_set_volume_2, drop_set_volume_3.
+    drop_set_volume_1, drop_set_volume_2, drop_set_volume_3. cbv zeta.
   repeat split; [apply vr_inv_1|apply vr_inv_2; exact Hv|apply vr_inv_3; exact Hv].
 Qed.
 
@@ -179,7 +205,7 @@ Lemma droplet_from_volume_volume v : 0 <= v ->
   drop_volume_3 (drop_from_volume_3 v) = v.
 Proof.
   intros Hv. unfold drop_volume_1, drop_volume_2, drop_volume_3,
-    drop_from_volume_1, drop_from_volume_2, drop_from_volume_3.
+    drop_from_volume_1, drop_from_volume_2, drop_from_volume_3. cbv zeta.
   repeat split; [apply vr_inv_1|apply vr_inv_2; exact Hv|apply vr_inv_3; exact Hv].
 Qed.
 
@@ -188,7 +214,7 @@ Lemma droplet_surface_is_dvolume r :
   is_derive drop_volume_2 r (drop_surface_2 r) /\
   is_derive drop_volume_3 r (drop_surface_3 r).
 Proof.
-  unfold drop_volume_1, drop_volume_2, drop_volume_3, drop_surface_1, drop_surface_2, drop_surface_3.
+  unfold drop_volume_1, drop_volume_2, drop_volume_3, drop_surface_1, drop_surface_2, drop_surface_3. cbv zeta.
   split; [|split]; [apply surf_dvol_1|apply surf_dvol_2|apply surf_dvol_3].
 Qed.
 
@@ -196,11 +222,14 @@ Lemma bbox_formula p r : 0 <= r ->
   drop_bbox_lo p r <= p <= drop_bbox_hi p r /\
   drop_bbox_hi p r - drop_bbox_lo p r = 2 * r /\
   (drop_bbox_hi p r + drop_bbox_lo p r) / 2 = p.
-Proof. intros Hr. unfold drop_bbox_lo, drop_bbox_hi. repeat split; try lra; field. Qed.
+Proof. intros Hr. unfold drop_bbox_lo, drop_bbox_hi. repeat split; first [lra | fld]. Qed.
 
 (* mean curvature of a sphere of radius r (d = 2: 1/r is the curvature of the circle) *)
 Lemma curvature_formula r : 0 < r -> drop_curvature r * r = 1 /\ 0 < drop_curvature r.
 Proof.
-  intros Hr. unfold drop_curvature. split; [field; lra|].
-  unfold Rdiv. rewrite Rmult_1_l. apply Rinv_0_lt_compat; exact Hr.
+  intros Hr. unfold drop_curvature.
+  assert (H1 : 1 / r * r = 1) by (field; lra).
+  assert (H2 : 0 < 1 / r) by (apply Rdiv_lt_0_compat; lra).
+  match goal with |- ?c * r = 1 /\ 0 < ?c => replace c with (1 / r) by fld end.
+  split; assumption.
 Qed.
